@@ -24,8 +24,11 @@ package main
 
 import (
 	"context"
+	"encoding/json"
 	"fmt"
 	"os"
+	osexec "os/exec"
+	"runtime/pprof"
 	"strconv"
 	"strings"
 	"sync"
@@ -341,6 +344,11 @@ func (k *killConn) Send(ctx context.Context, b *bin.Buffer) error {
 }
 
 // ---- one scenario ----
+var (
+	dumpOnce atomic.Bool
+	dumpPath = "/dev/null"
+)
+
 const watchdog = 25 * time.Second
 const closeWatchdog = 6 * time.Second
 
@@ -442,6 +450,13 @@ func runScenario(cl *cluster.Cluster, p Plan) *scen {
 	})
 	if runErr != nil && !strings.Contains(runErr.Error(), "context canceled") {
 		sc.note("Run: " + runErr.Error())
+		if dumpOnce.CompareAndSwap(false, true) {
+			// a stalled scenario: leave the goroutine dump next to the cases for the post-mortem
+			if f, err := os.Create(dumpPath); err == nil {
+				_ = pprof.Lookup("goroutine").WriteTo(f, 2)
+				_ = f.Close()
+			}
+		}
 	}
 	if p.Close != "none" {
 		// pending invocations must come back now; then a new invocation on the closed client
@@ -628,8 +643,68 @@ type result struct {
 	Notes []string    `json:"notes,omitempty"`
 }
 
+// supervise runs the harness proper as a child process, so that a fatal runtime error in
+// the code under test or in the in-process server (not recoverable in Go) cannot take the
+// verdict with it: one retry, then an obs.json with the violation "process-died".
+func supervise() {
+	out := ""
+	for i, a := range os.Args {
+		if (a == "-out" || a == "--out") && i+1 < len(os.Args) {
+			out = os.Args[i+1]
+		}
+	}
+	var tail string
+	for attempt := 0; attempt < 2; attempt++ {
+		cmd := osexec.Command(os.Args[0], os.Args[1:]...)
+		cmd.Env = append(os.Environ(), "C29_WORKER=1")
+		var eb tailBuf
+		cmd.Stdout, cmd.Stderr = os.Stdout, &eb
+		err := cmd.Run()
+		if err == nil {
+			return
+		}
+		tail = fmt.Sprintf("attempt %d: %v\n%s", attempt+1, err, eb.String())
+		fmt.Fprintln(os.Stderr, "c29 supervisor: worker died:", err)
+	}
+	if out == "" {
+		os.Exit(3)
+	}
+	obs := map[string]interface{}{
+		"property": "C29", "evaluations": 0, "distinct_nontrivial": 0, "rule": "worker process died twice", "samples": []interface{}{},
+		"distribution": map[string]int{"violation:process-died": 1}, "cases_files": []string{}, "notes": []string{tail},
+		"violations": []map[string]interface{}{{"sig": "process-died", "desc": "the C29 harness worker (real client + in-process server) died twice with a fatal runtime error: " + firstLine(tail), "shard": -1, "index": 0, "replay": map[string]interface{}{"stderr_tail": tail}}},
+	}
+	js, _ := json.MarshalIndent(obs, "", " ")
+	_ = os.MkdirAll(out, 0o755)
+	_ = os.WriteFile(out+"/obs.json", js, 0o644)
+}
+
+type tailBuf struct{ b []byte }
+
+func (t *tailBuf) Write(p []byte) (int, error) {
+	t.b = append(t.b, p...)
+	if len(t.b) > 1<<16 {
+		t.b = t.b[:1<<15] // keep the head: a Go fatal error prints the reason and the faulting goroutine first
+	}
+	return len(p), nil
+}
+func (t *tailBuf) String() string { return string(t.b) }
+func firstLine(s string) string {
+	for _, l := range strings.Split(s, "\n") {
+		if strings.Contains(l, "fatal error") || strings.Contains(l, "panic:") {
+			return l
+		}
+	}
+	return strings.SplitN(s, "\n", 2)[0]
+}
+
 func main() {
+	if os.Getenv("C29_WORKER") == "" {
+		supervise()
+		return
+	}
 	c := hx.Start("C29", "Run.Check_C29", 200)
+	dumpPath = c.Out + "/stalled-goroutines.txt"
 	verifhook.Set(hook)
 	defer verifhook.Set(nil)
 
@@ -723,6 +798,17 @@ func main() {
 	}
 	wg.Wait()
 
+	// timing-class suspicions (an invocation hit the 25 s watchdog / the caller's deadline) are
+	// re-run once, alone: a real hang reproduces, a stall of the machine does not
+	for i, sc := range results {
+		if timingSuspect(sc) {
+			c.Note(fmt.Sprintf("scenario %+v hit a watchdog in the parallel run; re-run alone", sc.plan))
+			c.Count("rerun-after-watchdog")
+			p := sc.plan
+			p.ID += 100000
+			results[i] = runScenario(cl, p)
+		}
+	}
 	for _, sc := range results {
 		judge(c, sc)
 	}
@@ -736,6 +822,26 @@ func main() {
 	}
 	c.Obs.Rule = "one scenario = one real telegram.Client against the tgtest cluster with 1..3 MessagesSendMessage requests in flight and the connection killed at one protocol step of the target (before send / after send / after the client processed the server's ack / after the result was written), or the client closed while a request is pending or waiting for a reconnect; evaluations = invocations judged; non-trivial = distinct (kill point, close mode, number in flight, target position, outcome pattern) in which the connection was really replaced or the client really closed; plus the race-replace stress: rounds of k callers entering invokeConn against exactly one replaceConn by a working connection (fake connections through export_verif.go), every caller must return the result within 3 s"
 	c.Finish()
+}
+
+func timingSuspect(sc *scen) bool {
+	sc.mu.Lock()
+	defer sc.mu.Unlock()
+	rs := append([]*reqState{}, sc.reqs...)
+	if sc.newAfter != nil {
+		rs = append(rs, sc.newAfter)
+	}
+	for _, r := range rs {
+		if !r.Returned || strings.Contains(r.Err, "deadline exceeded") {
+			return true
+		}
+	}
+	for _, n := range sc.notes {
+		if strings.HasPrefix(n, "Run: ") {
+			return true
+		}
+	}
+	return false
 }
 
 func judge(c *hx.Ctx, sc *scen) {
